@@ -130,7 +130,8 @@ impl OperationControl for Repeat {
                     self.operation.as_ref(),
                     iterators,
                     positions,
-                    bound,
+                    // the entry for zero occurrences is not an iteration
+                    if registered.is_some() { bound + 1 } else { bound },
                     self.min,
                     registered,
                 ),
